@@ -253,6 +253,12 @@ pub(crate) enum ExprErrorKind {
     UnexpectedValueForSignal(String, OutputValue),
     #[error("Division by zero")]
     DivisionByZero,
+    #[error("Variable {0} has not been assigned")]
+    UnknownVariable(String),
+    #[error("Empty range for random({0})")]
+    EmptyRandomRange(i64),
+    #[error("The function {0} is not implemented")]
+    NotImplemented(&'static str),
 }
 
 /// Could not construct static iterator
